@@ -18,14 +18,14 @@ RULE = ("case = handshake cut + recvmsg answer script + units (bytes, nfds). Fam
         "two messages, one fd-carrying message); (2) random sequences of 1-6 builder-shaped messages (both endiannesses, "
         "bodies 0 B - 64 KiB, 0-3 descriptors) under random chunkings (1-byte reads, small, exact, large) and random cuts "
         "(0, inside the header, at/around message boundaries, several messages deep); (3) the same with EOF / io-error answers; "
-        "(4) malformed primary headers (endian, type, flags, zero serial), lying lengths, declared sizes around and above "
+        "(4) malformed primary headers (endian, type, zero serial), unknown flag bits and unknown header-field codes (tolerated), field code 0, wrong value types, invalid names in header fields, lying lengths, declared sizes around and above "
         "128 MiB, descriptor counts that disagree with UNIX_FDS; (5) mode c: the same streams through a real client handshake "
         "(leftovers = what arrives with the last handshake line), the real SocketReader and a MessageStream. "
         "non-trivial = at least one message delivered and (cut > 0 or at least two scripted answers)")
 TRUSTED = ["the scripted transport of harness/hconn (recvmsg answers: 1..|buf| next bytes with the descriptors riding on them | EOF | error)",
            "message identity is compared as (length, 64-bit multiplicative hash of the bytes); descriptor identity as (st_dev, st_ino)",
-           "header-field deserialisation is a parameter of the model; the driver instance std_fields covers the standard fields only "
-           "(hostile fields are C12/C13's subject; the generator keeps fields builder-shaped)"]
+           "header-field deserialisation is a parameter of the model; the driver instance c11_fields is C11's model of message::Fields "
+           "(unknown codes skipped, code 0 rejected, names validated), reused read-only"]
 ASSUMPTIONS = ["transport read contract (DESIGN Appendix B): recvmsg(buf) returns 1..|buf| next stream bytes and the descriptors "
                "attached to them, 0 at EOF, or an error; a sender attaches a message's descriptors to its first byte",
                "u64 receive sequence numbers do not wrap (2^64 messages)"]
@@ -430,5 +430,5 @@ LEVEL_TEXT = ("Theorems in coq/theories/Properties/C14.v over an executable mode
               "panic site for any stream and any oracle (C14_no_panic). The model is tied to the code by differential runs of the real "
               "receive_message / handshake / SocketReader over a scripted transport, including all splits of short streams.")
 LEVEL_NOTE = ("Trusted: Coq kernel; hand-written model; scripted transport in harness/hconn; header-field parsing is a parameter "
-              "(std_fields instance covers standard fields); messages compared by length + 64-bit hash; u64 sequence numbers assumed not to wrap. "
+              "(driver instance = C11's Fields model); messages compared by length + 64-bit hash; u64 sequence numbers assumed not to wrap. "
               "The former finding leftover_fd is fixed (e5b20c34); its witness stays in the corpus and must pass.")
